@@ -159,6 +159,11 @@ J gen_tunnel(uint64_t seed, const J &ov)
 			if (r.chance(0.5)) gen_traffic(r, ops, me, "ext", (int)r.range(1, 10), 0.1, W, ser, maxlen, false);
 			gen_traffic(r, ops, "srv", me, (int)r.range(5, 30), 0.1, W, ser, maxlen, false);
 		}
+		if (ncli <= 2 && r.chance(0.15)) {
+			J op = J::obj(); op.set("t", (long long)((2 + r.uniform() * W) * 1e6)); op.set("op", "restart"); op.set("task", "c" + std::to_string(r.range(0, ncli - 1)));
+			op.set("after_us", (long long)r.range(1000, 3000000));
+			ops.push(op);
+		}
 		J f = J::obj();
 		f.set("ref", r.chance(0.7) ? "T0" : "abs");
 		double t0 = r.uniform() * W * 0.5, t1 = t0 + 1 + r.uniform() * W;
